@@ -25,7 +25,9 @@ def run(repo, reg, prop, tier):
                 bad.append({"line": r.lineno, "returns": ast.unparse(v)[:120] if v is not None else "None"})
         key = f"{ci.module}::{cname}.sample_batch"
         groups.append({"name": f"{key}/T/returns-through-grid-snap", "function": key,
-                       "verdict": "refuted" if (bad or not rets) else "proved", "kind": "T", "backend": ["structure"],
+                       # a return that does not syntactically go through the snap is UNDECIDED (the bounded stand-in
+                       # C03/all-samplers decides), never a violation by itself
+                       "verdict": "unknown" if (bad or not rets) else "proved", "kind": "T", "backend": ["structure"],
                        "time": 0.0, "instances": max(len(rets), 1), "lines": [b["line"] for b in bad],
                        "witness": {"returns_not_snapped": bad} if bad else None,
                        "detail": (f"return statements that do not go through digitize_data(..., search_space.param_grid): {bad}"
